@@ -85,6 +85,22 @@ def run(ctx):
                     a = dict(G.shape_args(rng, name), degree=deg) if name != "invrect" else {"degree": deg, "delta": 2.0, "kappa": 3, "epsilon": 0.1}
                     cases.append({"fn": "gen", "name": name, "args": G.enc_args(a), "ensure_bounded": rng.random() < 0.7, "return_scale": rng.random() < 0.5,
                                   "chebyshev_basis": cheb, "timeout": 300, "expect": "ok", "float_degree": True})
+        # monomial (Taylor) mode at the top of its degree range: round-off in the opposite parity class grows with the degree there,
+        # so only an exact projection (not a relative chop) leaves it exactly zero
+        for name in G.ERF:
+            for deg0 in ((16, 22) if quick else (16, 18, 20, 22, 24)):
+                deg = deg0 + (1 if name in G.ODD else 0)
+                a = dict(G.shape_args(rng, name), degree=deg)
+                if name == "relu":
+                    a["delta"] = rng.choice([0.2, 0.3])
+                cases.append({"fn": "gen", "name": name, "args": G.enc_args(a), "ensure_bounded": rng.random() < 0.5, "return_scale": rng.random() < 0.5,
+                              "chebyshev_basis": False, "timeout": 300, "expect": "ok"})
+        # the composite 1/x * rect generator must refuse an odd degree itself (its rect factor is even), not adjust it silently
+        for deg in ((5, 11) if quick else (3, 5, 7, 11, 21)):
+            for cheb in (True, False):
+                cases.append({"fn": "gen", "name": "invrect", "args": G.enc_args({"degree": deg, "delta": 2.0, "kappa": 3, "epsilon": 0.1}),
+                              "ensure_bounded": rng.random() < 0.5, "return_scale": rng.random() < 0.5, "chebyshev_basis": cheb, "timeout": 300,
+                              "expect": "refuse", "float_degree": deg == 11})
         # 1/x with a small binomial parameter b = int(kappa^2 log(kappa/eps)): the truncation index j0 reaches b (empty tail sums)
         for kappa, eps in ((1.5, 0.3), (1.25, 0.1), (1.4, 0.05), (1.2, 0.3), (1.1, 0.2), (1.05, 0.1)):
             for cheb in (True, False):
